@@ -98,6 +98,9 @@ structure Laws (I : Interp α) (WT : Tensor α → Prop) : Prop where
   reshape_same : ∀ (x s : Tensor α), (I.reshape x s).rank = x.rank →
     (∀ k, k < x.rank → (I.reshape x s).dim k = x.dim k) → I.reshape x s = x
   reshape_pw : ∀ (f : List α → α) (x s : Tensor α), pw f [I.reshape x s] = I.reshape (pw f [x]) s
+  reshape_pw_sc : ∀ (f : List α → α) (pre post : List (Tensor α)) (x s : Tensor α),
+    (∀ c ∈ pre, Scalar0 c) → (∀ c ∈ post, Scalar0 c) →
+    pw f (pre ++ [I.reshape x s] ++ post) = I.reshape (pw f (pre ++ [x] ++ post)) s
   reshape_cast : ∀ to (x s : Tensor α),
     castT I.castS to (I.reshape x s) = I.reshape (castT I.castS to x) s
   /-- a keepdims reduction over axes commutes with a transpose when the axes are mapped through it
